@@ -11,7 +11,10 @@ Go code modelled (quartz/scheduler.go), everything marked (mtx) runs with `sched
 * `Stop()` (mtx) = `stop()`; `stopRun(g)` (mtx) = `if sched.run == g { stop() }`;
   `stop()` = `if !started { return }; sched.cancel(); started = false`.
 * `IsStarted()` = `started && runCtx.Err() == nil`.
-* `Wait(ctx)` returns when `wg` reaches zero (or the caller's ctx expires).
+* `Wait(ctx)` is `select { case <-ctx.Done(): case <-sched.wg.zero(): }`: it creates no goroutine and writes nothing.
+  `wg` is a `waitCounter` (mutex, `n`, `done`): `Add` makes a fresh `done` channel when it leaves zero and closes it
+  when `n` returns to zero; `zero()` returns a closed channel iff `n = 0`, else the current `done`. Waiters are
+  modelled in a layer on top of the scheduler state (`WSt`, end of this file): they only read it.
 * loop / workers leave on `<-ctx.Done()`; per-execution goroutines (`wg.Add(1); go func(){ defer wg.Done(); … }`)
   are created by the loop goroutine only, and run the job with the run's ctx.
 
@@ -197,5 +200,86 @@ def expectStep : Nat × Bool → Act → Nat × Bool
   | p, _ => p
 
 def expect (as : List Act) : Nat × Bool := as.foldl expectStep (0, false)
+
+/-! ## Wait: callers layered on top of the scheduler state
+
+`WSt` adds to the scheduler state the identity of the current `done` channel (`epoch` = number of times the
+counter has left zero) and the callers of `Wait`. A caller is not a goroutine of the scheduler. `wstep` lifts
+every scheduler action unchanged (`WAct.sched`): the scheduler component never reads the waiters.
+The flag `old` selects the historic implementation (sync.WaitGroup + a helper goroutine per `Wait`) for the
+negative control: there a helper outlives an expired `Wait`, and an `Add` from zero while a released helper has
+not yet returned from `wg.Wait()` is the runtime panic "WaitGroup is reused before previous Wait has returned". -/
+
+/-- a caller of `Wait` -/
+inductive WaitPc
+  | blocked (e : Nat) (g0 : Nat)  -- holds the `done` channel of epoch `e`; `g0` = `sched.run` at the call (ghost)
+  | released                      -- its channel is closed: `Wait` is returning because the counter was zero
+  | returned
+  | expired                       -- returned because the caller's context expired
+deriving DecidableEq, Repr
+
+structure WSt where
+  sched : St
+  /-- number of `done` channels made so far = number of times the counter left zero -/
+  epoch : Nat
+  waiters : List WaitPc
+  /-- only reachable in the `old` variant: the WaitGroup-reuse panic -/
+  broken : Bool
+deriving DecidableEq, Repr
+
+def winit : WSt := { sched := init, epoch := 0, waiters := [], broken := false }
+
+inductive WAct
+  | sched (a : Act)          -- any action of the scheduler model, unchanged
+  | waitCall                 -- a caller enters `Wait`: `sched.wg.zero()`
+  | waitWake (k : Nat)       -- the channel caller `k` holds is closed: its `select` takes that case
+  | waitReturn (k : Nat)
+  | waitExpire (k : Nat)     -- the `select` takes `<-ctx.Done()`
+deriving DecidableEq, Repr
+
+/-- the `done` channel of epoch `e` is closed: a later epoch exists, or it is the current one and `n = 0` -/
+def chanClosed (w : WSt) (e : Nat) : Bool :=
+  decide (e < w.epoch) || (e == w.epoch && w.sched.wg == 0)
+
+def wstep (cfg : Cfg) (old : Bool) (w : WSt) : WAct → Option WSt
+  | .sched a =>
+    match step cfg w.sched a with
+    | some s' =>
+      -- `Add` with `n == 0` before: `w.done = make(chan struct{})`
+      let fresh := w.sched.wg == 0 && s'.wg != 0
+      some { w with sched := s', epoch := if fresh then w.epoch + 1 else w.epoch,
+                    broken := w.broken || (old && fresh && w.waiters.contains .released) }
+    | none => none
+  | .waitCall =>
+    -- `zero()`: a closed channel iff `n == 0`, else the current `done`
+    some { w with waiters := w.waiters ++
+      [if w.sched.wg == 0 then .released else .blocked w.epoch w.sched.gens.length] }
+  | .waitWake k =>
+    match w.waiters[k]? with
+    | some (.blocked e _) =>
+      if chanClosed w e then some { w with waiters := w.waiters.set k .released } else none
+    | _ => none
+  | .waitReturn k =>
+    match w.waiters[k]? with
+    | some .released => some { w with waiters := w.waiters.set k .returned }
+    | _ => none
+  | .waitExpire k =>
+    match w.waiters[k]? with
+    | some (.blocked _ _) =>
+      -- old variant: the caller returns but its helper goroutine stays blocked in `wg.Wait()`
+      if old then some w else some { w with waiters := w.waiters.set k .expired }
+    | _ => none
+
+def wrun (cfg : Cfg) (old : Bool) (w : WSt) : List WAct → Option WSt
+  | [] => some w
+  | a :: as => (wstep cfg old w a).bind (fun w' => wrun cfg old w' as)
+
+def WReach (cfg : Cfg) (old : Bool) (w : WSt) : Prop := ∃ as, wrun cfg old winit as = some w
+
+/-- the scheduler actions of a layered trace -/
+def schedActs : List WAct → List Act
+  | [] => []
+  | .sched a :: as => a :: schedActs as
+  | _ :: as => schedActs as
 
 end Lifecycle
